@@ -108,8 +108,59 @@ def judge_pair_labels(a, b, large, bulk=False):
     return out
 
 
+BULK_PAIRS = [((136, 136, 136), (255, 255, 255)), ((118, 118, 118), (255, 255, 255)), ((89, 89, 89), (255, 255, 255)),
+              ((150, 150, 150), (0, 0, 0)), ((95, 95, 95), (0, 0, 0))]
+
+
+def bulk_entries():
+    """Entry shapes for the sequence sub-check: (text, bg), (text, bg, True), (text, bg, False) as tuples and as hex strings."""
+    out = []
+    for a, b in BULK_PAIRS:
+        out += [[list(a), list(b)], [list(a), list(b), True], [list(a), list(b), False]]
+    a, b = BULK_PAIRS[1]
+    ha, hb = "#%02x%02x%02x" % a, "#%02x%02x%02x" % b
+    out += [[ha, hb], [ha, hb, True]]
+    return out
+
+
+def judge_bulk_seq(entries):
+    """Each status of one bulk call must be the label of the colour returned for that entry, at that entry's own text size."""
+    from mc.oracle import css_color
+
+    _, _, make_readable_bulk = _lib()
+    call = [tuple(tuple(x) if isinstance(x, list) else x for x in e) for e in entries]
+    case = {"kind": "bulk_seq", "entries": entries}
+    res = make_readable_bulk(call)
+    out = []
+    if not (isinstance(res, list) and len(res) == len(call)):
+        return [dict(sig="label/bulk_sequence_shape", case=case, observed=repr(res)[:200], expected="%d results" % len(call),
+                     msg="make_readable_bulk(%r) returned %r" % (call, res))]
+    for i, (e, r) in enumerate(zip(call, res)):
+        large = bool(e[2]) if len(e) == 3 else False
+        col, status = r
+        rgb = col if isinstance(col, tuple) else css_color.read_unique(col)
+        bg = e[1] if isinstance(e[1], tuple) else css_color.read_unique(e[1])
+        if rgb is None:
+            continue
+        r2 = wcag.ratio(tuple(rgb), tuple(bg))
+        if not wcag.level_is_decidable(r2, large):
+            continue
+        want = wcag.LABEL[wcag.level(r2, large)].lower()
+        if status != want:
+            out.append(dict(sig="label/bulk_status_in_sequence", case=case, observed=[repr(col), status], expected=want,
+                            msg="entry %d %r of make_readable_bulk(%r): returned %r labelled %r; ratio %.4f at large=%s => %r"
+                                % (i, e, call, col, status, r2, large, want)))
+    return out
+
+
+def chunk_bulk_seq(entries):
+    return 1, judge_bulk_seq(entries), 0
+
+
 def judge_case(case):
     k = case["kind"]
+    if k == "bulk_seq":
+        return judge_bulk_seq(case["entries"])
     if k == "lum":
         return judge_lum(case["rgb"])
     if k == "ratio":
@@ -285,6 +336,20 @@ def run(ctx):
         ctx.add_violations(viol)
     ctx.sub("labels_bulk_nearest_pairs", states=nb, transitions=3 * nb, evaluations=nb, traces=nb,
             distinct_nontrivial=nb, undecidable=und, exhaustive=True)
+    # bulk status inside a list: every ordered sequence of entry shapes up to the tier's length (a status must not depend
+    # on the entries around it - in particular not on an earlier entry's large flag)
+    import itertools
+
+    E = bulk_entries()
+    depth = 2 if ctx.quick else 3
+    seqs = [list(s) for d in range(1, depth + 1) for s in itertools.product(E, repeat=d)]
+    nq = 0
+    for cnt, viol, _u in ctx.pmap(chunk_bulk_seq, seqs, chunksize=16):
+        nq += cnt
+        ctx.add_violations(viol)
+    ctx.sub("labels_bulk_sequences", states=nq, transitions=sum(len(s) for s in seqs), evaluations=nq, traces=nq,
+            distinct_nontrivial=nq, exhaustive=True, entry_alphabet=len(E), max_length=depth)
+    ctx.sample({"subcheck": "bulk_sequence", "entries": seqs[len(seqs) // 2]})
     ctx.cov["nearest_threshold_distance"] = min(abs(v[0]) for v in near.values()) if near else None
     ctx.assumptions += [
         "reference linearisation table computed with decimal at 50 digits; sums in binary64",
